@@ -301,4 +301,4 @@ def run(ctx):
         "expiry (expried) and wait timeouts are chosen far above the hold times; holds close to expiry are excluded",
         "PriorityLock waiters count as definitely waiting only once the server's LIST_WAIT reports them queued",
     ]
-    return ctx.finish(cov, assumptions, level="proof+runtime-monitor")
+    return ctx.finish(cov, assumptions, level="proof")
